@@ -200,8 +200,9 @@ def cases(tier):
             for op in ('add', 'sub', 'mul', 'div'):
                 if not thorough and (has_i or op in ('mul', 'div')):
                     continue
-                if op == 'div' and nm in ('id', 'di'):
-                    # 64-step divider behind 16-way integer promotion: > 50 min, not run
+                if op == 'div' and nm in ('id', 'di', 'sd', 'ds'):
+                    # the 56-step double-precision divider behind a promotion: id/di ran > 50 min, sd/ds
+                    # ended with the solver answering unknown at a branch after 40 min -- not run
                     continue
                 cs.append(Case('promote-%s-%s' % (op, nm), body_promote, ifconvert=IFC,
                                abstract_products=(op == 'mul'),
